@@ -6,7 +6,7 @@ open Driver AGH AGH.C03
 Lines (block = one configuration followed by requests):
   C03.conf  srvName strict  nA (raw kind addr bits zone)*nA  nB (…)*nB  nH host*nH  =>  ok | errA <i> | errB <i>
   C03.set   (same fields as C03.conf; POST /control/access/set on the live server)  =>  ok | dupA | dupB | dupH | both | errA <i> | errB <i>
-  C03.q     proto ipkind addr zone hasPath path sni connOK nq hostBlocked qname qtype
+  C03.q     proto ipkind addr zone hasPath path sni connOK nq hostBlocked qname qtype qclass
                                           =>  blocked rule action cached | noconf
 kind ∈ a4 a6 p4 p6 x ; ipkind ∈ 0 4 6 ; addr = big-endian bytes in hex.
 -/
@@ -154,7 +154,7 @@ def parseAction (s : String) : Option Action :=
 
 def stepQ (st : State) (ins impl : List String) : Option String := do
   match ins with
-  | [proto, ipk, addr, zone, hasPath, path, sni, connOK, nq, hostBlocked, _qname, _qtype] =>
+  | [proto, ipk, addr, zone, hasPath, path, sni, connOK, nq, hostBlocked, _qname, qtype, qclass] =>
     let proto ← parseProto proto
     let ip ← parseIP ipk addr zone
     let hasPath ← parseBool hasPath
@@ -176,7 +176,8 @@ def stepQ (st : State) (ins impl : List String) : Option String := do
         hostSrvName := c.srvName
         strict := c.strict }
       let cid := C16.clientIDFromCtx ctx
-      let r : Request := { proto := proto, addr := ip, clientID := cid, nq := nq, hostBlocked := hostBlocked }
+      let r : Request := { proto := proto, addr := ip, clientID := cid, nq := nq, hostBlocked := hostBlocked,
+                           qclass := ← qclass.toNat?, qtype := ← qtype.toNat? }
       let (mb, mrule) := c.access.isBlockedClient ip r.effectiveID
       let (mact, mcached) := handleBefore c.access r
       let out := "\t".intercalate [if mb then "1" else "0", ruleName mrule, actionName mact, hexEncode mcached]
@@ -205,7 +206,7 @@ def replyName : Option Reply → String
 /-- Per request: model output fields, number of requests filtered, spec failure. -/
 def sockReqs (c : Conf) : List String → List String → Option (List String × Nat × Option String)
   | [], _ => some ([], 0, none)
-  | proto :: ipk :: addr :: zone :: sni :: hostBlocked :: _qname :: _qtype :: path :: rest, impl => do
+  | proto :: ipk :: addr :: zone :: sni :: hostBlocked :: _qname :: qtype :: path :: qclass :: rest, impl => do
     let proto ← parseProto proto
     let ip ← parseIP ipk addr zone
     let sni ← hexDecode sni
@@ -217,7 +218,7 @@ def sockReqs (c : Conf) : List String → List String → Option (List String ×
       httpTLS := if proto == .https then some sni else none, hostHdr := [], hostSplit := none
       connSNI := some sni, hostSrvName := c.srvName, strict := c.strict }
     let r : Request := { proto := proto, addr := ip, clientID := C16.clientIDFromCtx ctx, nq := 1,
-                         hostBlocked := hostBlocked }
+                         hostBlocked := hostBlocked, qclass := ← qclass.toNat?, qtype := ← qtype.toNat? }
     let (eff, rep) := serve c.access processAll r
     let out := [replyName rep, toString eff.upstream.length, toString eff.logged.length,
                 toString eff.counted.length]
@@ -252,7 +253,7 @@ def stepSock (ins impl : List String) : Option String := do
   | .ok c =>
     match rest with
     | k :: reqs =>
-      if reqs.length ≠ 9 * (← k.toNat?) then none
+      if reqs.length ≠ 10 * (← k.toNat?) then none
       let (outs, nf, spec) ← sockReqs c reqs impl
       let out := "\t".intercalate (outs ++ [toString nf])
       -- the filtering hook may run more than once per processed request: compare "≥"
